@@ -10,7 +10,7 @@ Open Scope Z_scope.
 Inductive mus_res :=
 | MusOk (s : cnf)   (* mus, nil                                          *)
 | MusErr            (* nil, err  (problem not UNSAT)                     *)
-| MusPanic          (* index out of range in MUSInsertion (mus.go:127)   *)
+| MusPanic          (* index out of range in MUSInsertion (mus.go:129)   *)
 | MusFuel.          (* model artefact: out of fuel (proved unreachable)  *)
 
 Fixpoint remove_nth {A : Type} (i : nat) (l : list A) : list A :=
@@ -35,7 +35,7 @@ Variable subset : cnf -> option cnf.
 Variable minrelax : nat -> cnf -> cnf -> option model.
 
 (* ------------------------------------------------------------------ *)
-(* MUSDeletion, mus.go:155-202, with the relaxation encoding abstracted:
+(* MUSDeletion, mus.go:157-204, with the relaxation encoding abstracted:
    clause i is dropped when the clauses kept so far together with the ones
    not yet visited are still unsatisfiable.                              *)
 Fixpoint del_loop (kept rest : cnf) : cnf :=
@@ -53,10 +53,10 @@ Definition mus_deletion (f : cnf) : mus_res :=
   end.
 
 (* The same with the encoding of the Go code: relax literal NbVars+i+1 is
-   appended to clause i (mus.go:163-169), all assumptions start as the
-   negated relax literals (171-174), assumption i is flipped, the solver is
+   appended to clause i (mus.go:165-171), all assumptions start as the
+   negated relax literals (173-176), assumption i is flipped, the solver is
    asked under the assumptions, and flipped back when the answer is Sat
-   (175-188).  Solving under assumptions is modelled as solving with the
+   (177-190).  Solving under assumptions is modelled as solving with the
    assumptions added as unit clauses.                                     *)
 Fixpoint relax_from (v : Z) (s : cnf) : cnf :=
   match s with
@@ -87,17 +87,17 @@ Definition mus_deletion_relax (f : cnf) : mus_res :=
     let k := length s in
     let first := Z.of_nat n + 1 in
     let A := delr_loop (n + k) (relax_from first s) [] (map Z.opp (lits_from first k)) in
-    (* mus.go:192-200: the clauses whose assumption is not positive *)
+    (* mus.go:194-202: the clauses whose assumption is not positive *)
     MusOk (select (map (fun a => negb (0 <? a)) A) s)
   end.
 
-(* (pb *Problem).MUS(), mus.go:211-213 *)
+(* (pb *Problem).MUS(), mus.go:213-215 *)
 Definition mus (f : cnf) : mus_res := mus_deletion f.
 
 (* ------------------------------------------------------------------ *)
-(* MUSInsertion, mus.go:107-145                                         *)
+(* MUSInsertion, mus.go:109-147                                         *)
 
-(* the inner loop (126-136): clauses[idx] are appended one by one while the
+(* the inner loop (128-138): clauses[idx] are appended one by one while the
    solver says Sat.  Result: (clauses[:idx], clauses[idx]) after [idx--];
    None when idx runs past the end (Go panics).                          *)
 Fixpoint ins_find (mus added cands : cnf) : option (cnf * clause) :=
@@ -127,13 +127,13 @@ Definition mus_insertion (f : cnf) : mus_res :=
   end.
 
 (* ------------------------------------------------------------------ *)
-(* MUSMaxSat, mus.go:15-66.  State: the clauses with their [done] marks. *)
+(* MUSMaxSat, mus.go:15-68.  State: the clauses with their [done] marks. *)
 
 Definition hard_of (st : list (bool * clause)) : cnf := map snd (filter fst st).
 Definition soft_of (st : list (bool * clause)) : cnf :=
   map snd (filter (fun x => negb (fst x)) st).
 
-(* mus.go:43-57: every clause that is not yet done and that the optimum
+(* mus.go:45-59: every clause that is not yet done and that the optimum
    model violates becomes hard and joins the MUS                         *)
 Fixpoint mark_violated (m : model) (st : list (bool * clause))
   : list (bool * clause) * cnf :=
@@ -150,7 +150,7 @@ Fixpoint maxsat_loop (fuel : nat) (st : list (bool * clause)) (mus : cnf) : mus_
   | O => MusFuel
   | S f =>
     match minrelax n (hard_of st) (soft_of st) with
-    | None => MusOk mus                                     (* cost == -1 *)
+    | None => MusOk mus               (* cost == -1: the gathered clauses *)
     | Some m =>
       if forallb (sat_clause m) (soft_of st) then MusErr    (* cost == 0  *)
       else let (st', add) := mark_violated m st in
@@ -158,8 +158,24 @@ Fixpoint maxsat_loop (fuel : nat) (st : list (bool * clause)) (mus : cnf) : mus_
     end
   end.
 
-Definition mus_maxsat (f : cnf) : mus_res :=
+(* the gathering loop alone: the clauses violated by the successive optima *)
+Definition mus_maxsat_gather (f : cnf) : mus_res :=
   maxsat_loop (S (length f)) (map (pair false) f) [].
+
+(* MUSMaxSat before commit 6770e40: the gathered clauses were returned as
+   they are (not minimal: D19).  Kept as a regression witness.            *)
+Definition mus_maxsat_old (f : cnf) : mus_res := mus_maxsat_gather f.
+
+(* mus.go:36-40: when cost == -1 the function returns
+   makeMus(nbVars, musClauses).MUSDeletion(): the gathered clauses are
+   minimised with the deletion method (which first calls UnsatSubset on
+   them).  makeMus (80-98) keeps NbVars and fills [units] from the unit
+   clauses, i.e. builds [mk_problem n gathered].                         *)
+Definition mus_maxsat (f : cnf) : mus_res :=
+  match mus_maxsat_gather f with
+  | MusOk g => mus_deletion g
+  | r => r
+  end.
 
 End Algorithms.
 
@@ -188,7 +204,9 @@ Definition mus_deletion_relax_ref (n : nat) (f : cnf) : mus_res :=
 Definition mus_insertion_ref (n : nat) (f : cnf) : mus_res :=
   mus_insertion n sat_ref (subset_ref n) f.
 Definition mus_maxsat_ref (n : nat) (f : cnf) : mus_res :=
-  mus_maxsat n minrelax_ref f.
+  mus_maxsat n sat_ref (subset_ref n) minrelax_ref f.
+Definition mus_maxsat_old_ref (n : nat) (f : cnf) : mus_res :=
+  mus_maxsat_old n minrelax_ref f.
 Definition mus_ref (n : nat) (f : cnf) : mus_res := mus_deletion_ref n f.
 
 (* ================================================================== *)
